@@ -17,10 +17,11 @@ def run(ctx):
         w = tlc("SignFlow", "MC_SignFlow_no_%s.cfg" % g, name="c03no" + g, workers=2, timeout=300, coverage=False)
         if not w.violated:
             raise ToolError("vacuity: dropping contract %s does not break the round trip in the model" % g)
-    space = [dict(format=f, alg=a, hash_alg=h, compressed=c, claim_version=cv, mode=m, assertions=n, payload=p, ingredient=i, kind=kind, repeat=repeat, icon=icon)
+    space = [dict(format=f, alg=a, hash_alg=h, compressed=c, claim_version=cv, mode=m, assertions=n, payload=p, ingredient=i, kind=kind, repeat=repeat, icon=icon, extra=extra)
              for f in FORMATS for a in ALGS for h in ("sha256", "sha384", "sha512") for c in (False, True) for cv in (1, 2)
              for m in ("embed", "sidecar", "remote", "embed+remote") for n in (0, 1, 3) for p in ("tiny", "b23", "b255", "b65535") for i in ("none", "unsigned", "signed")
-             for kind, repeat in (("cbor", 0), ("json", 0), ("cbor", 2), ("json", 1), ("json", 2)) for icon in (False, True)]
+             for kind, repeat in (("cbor", 0), ("json", 0), ("cbor", 2), ("json", 1), ("json", 2)) for icon in (False, True)
+             for extra in ("none", "none", "thumb", "user_thumb", "ing_thumb", "ing_data", "ing_other_alg")]
     ctx.rng.shuffle(space)
     n = 260 if ctx.quick else 6000
     # make sure every value of every dimension occurs: greedy pick
